@@ -481,6 +481,7 @@ func main() {
 			"os.RemoveAll of a non-empty directory opens the parent directory for reading after the plain remove failed; a refusal whose only cause is missing read permission on the parent is an artefact of Go's strategy and is not compared (skipped_go_removeall_parent_read_artefact)",
 			"umask is varied for creating calls only; other calls run with umask 022. The masks are {022, 000, 002, 027, 077} and the owner-class masks {0100, 0200, 0300, 0400, 0500, 0600, 0700, 0777} (not all 512 values: the group / other digits of a mask only shape the mode of the new object, which is compared with the formula; the owner digit also decides what the creator may do next inside a directory he has just created), each x perm in {0666, 0600, 0777, 02755} for Mkdir, MkdirAll (1, 2, 3 missing levels), OpenFile(RDWR|CREATE), OpenFile(WRONLY|CREATE|EXCL), WriteFile; Create x 13 masks, Symlink x {022, 077, 0300, 0777}",
 			"no-op arguments: Truncate / File.Truncate to the current length (3 for the file \"abc\", 0 for the empty file of shape E, where O_TRUNC opens are no-ops too), Chmod to the current mode, Chown / Lchown to the current (uid, gid), Rename(name, name); the kernel decides permission before it notices that nothing would change (and decides Rename onto itself before the directory permissions). For identical names the kernel side calls rename(2) directly: os.Rename answers EEXIST for a directory renamed onto itself from its own Lstat without asking the kernel. Chtimes to the current times, Link onto itself (EEXIST on both sides before anything else) and File.Chmod / File.Chown with the current values are not tried; shape E takes the directories above at the 8 rwx values without special bits (their full domains are enumerated in F)",
+			"two-directory Rename/Link onto an existing entry (shape x2/FF): both entries are regular files with fixed mode 0644 (the mode of an entry takes no part in rename(2) / link(2)); the directories take the 8 rwx values of the applicable class with the other classes 000 and special bits {none, sticky} (thorough phase C: {none, sticky, setgid}), independently of one another; a directory as the moved or replaced entry across directories is enumerated only onto a missing name (x2/D)",
 			"open flags: the flag word of OpenFile is the full product of access mode {O_RDONLY, O_WRONLY, O_RDWR}, O_TRUNC, O_APPEND and {none, O_CREATE, O_CREATE|O_EXCL} (36 sets; shapes Fo = existing file, Do = existing empty directory, M = missing name; perm 0666 and umask 022 for the creating sets, the sets RDWR|CREATE and WRONLY|CREATE|EXCL additionally over 4 perms x 5 umasks on a missing name). In Fo / Do the directories above the operand take the 8 rwx values of the applicable class without special bits (their full domains are enumerated in F / D / M with the usual flag sets). O_EXCL without O_CREATE (undefined by open(2)), access mode 3, O_SYNC / O_NONBLOCK / O_DIRECT ... are not tried; what a handle opened with an unusual flag set can then do (Write on a handle from O_RDONLY|O_TRUNC) is not a permission decision and belongs to C01/C02; the File.* calls use handles from RDONLY / WRONLY / RDWR (and two creating sets) only",
 			"chown arguments are taken from {-1, the actor's uid, one other uid} x {-1, the actor's group, the other group} (9 forms, all on Chown of a file; on Lchown, File.Chown and on directories quick uses a subset that always holds the form user refused + group allowed, thorough all 9 on Lchown and File.Chown); uids/gids unknown to the identity manager are not tried",
 			"the kernel tree is not read again after a refused single system call (a refused chown(2), chmod(2), open(2)... changes nothing in the kernel); the MemFS tree is read again after every call",
@@ -504,9 +505,9 @@ func main() {
 
 func describeBound(tier string, perPhase map[string][2]int) string {
 	desc := map[string]string{
-		"A": "A: depth<=2 + two-directory Rename/Link + Rename/Link onto an existing file, 16-mode covering set (8 rwx values of the applicable class x other classes 000/777), owner in {actor, other user, root} x group in {own, other}, parent special in {none, sticky, setgid}, creating calls x 4 perms x 13 umasks = the usual {022, 000, 002, 027, 077} + the masks that take bits from the OWNER class {0100 .. 0700, 0777}, MkdirAll with 1, 2 and 3 missing levels under each (the mode just given to level k decides level k+1) and with 2 missing levels below an existing directory under umask 0300; no-op arguments: Truncate to the current length (file \"abc\" and shape E = empty file, also O_TRUNC opens and File.Truncate on it), Chmod to the current mode, Chown / Lchown to the current owner and group, Rename of a name onto itself (kernel asked with rename(2) directly), File.Truncate to the current length on a read-only handle, under every configuration of the shape; Chown / Lchown / File.Chown (file and directory handle) argument forms: one field, both fields acceptable, and both fields with exactly one acceptable on its own in both orders (user refused + group allowed, user allowed + group refused) or none, on nodes of the actor's own and of the other group; open-flag dimension (shapes Fo, Do, M): OpenFile with the full product access mode {RDONLY, WRONLY, RDWR} x {-, TRUNC} x {-, APPEND} x {-, CREATE, CREATE|EXCL} (36 flag sets) on an existing file (full leaf domain), an existing directory and a missing name, containing directories at the 8-value set without special bits",
+		"A": "A: depth<=2 + two-directory Rename/Link (onto a missing name: shapes x2/F, x2/D) + Rename/Link onto an existing file in the same directory (FF) and in ANOTHER directory (x2/FF: the attributes of the two directories independent - each {actor, other user, root} x 8 rwx values x {none, sticky}, so exactly one of them sticky, both, none - and the owners of the moved and of the replaced entry independent in {actor, other user, root}), 16-mode covering set (8 rwx values of the applicable class x other classes 000/777), owner in {actor, other user, root} x group in {own, other}, parent special in {none, sticky, setgid}, creating calls x 4 perms x 13 umasks = the usual {022, 000, 002, 027, 077} + the masks that take bits from the OWNER class {0100 .. 0700, 0777}, MkdirAll with 1, 2 and 3 missing levels under each (the mode just given to level k decides level k+1) and with 2 missing levels below an existing directory under umask 0300; no-op arguments: Truncate to the current length (file \"abc\" and shape E = empty file, also O_TRUNC opens and File.Truncate on it), Chmod to the current mode, Chown / Lchown to the current owner and group, Rename of a name onto itself (kernel asked with rename(2) directly), File.Truncate to the current length on a read-only handle, under every configuration of the shape; Chown / Lchown / File.Chown (file and directory handle) argument forms: one field, both fields acceptable, and both fields with exactly one acceptable on its own in both orders (user refused + group allowed, user allowed + group refused) or none, on nodes of the actor's own and of the other group; open-flag dimension (shapes Fo, Do, M): OpenFile with the full product access mode {RDONLY, WRONLY, RDWR} x {-, TRUNC} x {-, APPEND} x {-, CREATE, CREATE|EXCL} (36 flag sets) on an existing file (full leaf domain), an existing directory and a missing name, containing directories at the 8-value set without special bits",
 		"B": "B: depth 3, grandparent 16 modes, parent and leaf 8 modes; creating calls, owner-class umasks, multi-level MkdirAll and no-op arguments as in A; the 36 open flag sets on file, directory and missing name at depth 3 (directories above at the 8-value set)",
-		"C": "C: depth<=2, full covering set (32 modes, 6 owner/group pairs, special bits on every directory), all 9 chown argument forms on Chown, Lchown and File.Chown; creating calls x 4 perms x 13 umasks (owner-class masks included), MkdirAll with 1-3 missing levels and the no-op arguments (current length / mode / owner, Rename onto itself, empty file) as in A on the full covering set; the 36 open flag sets on a file with the full covering set (32 modes x 6 owner/group pairs), on a directory and on a missing name",
+		"C": "C: depth<=2, full covering set (32 modes, 6 owner/group pairs, special bits on every directory), all 9 chown argument forms on Chown, Lchown and File.Chown; creating calls x 4 perms x 13 umasks (owner-class masks included), MkdirAll with 1-3 missing levels and the no-op arguments (current length / mode / owner, Rename onto itself, empty file) as in A on the full covering set; the 36 open flag sets on a file with the full covering set (32 modes x 6 owner/group pairs), on a directory and on a missing name; two-directory Rename/Link onto an existing file (x2/FF+) with each directory {actor, other user, root} x 8 rwx values x {none, sticky, setgid} independently and the owners of the moved and the replaced entry independent in {actor, same-group user, root, actor with foreign group}",
 		"D": "D: depth 3 for a user who owns nothing, grandparent 8 modes x special bits {none, sticky, setgid}, parent and leaf 8 modes; creating calls, owner-class umasks, multi-level MkdirAll and no-op arguments as in A; the 36 open flag sets at depth 3 for that user (directories without special bits)",
 	}
 
